@@ -1,7 +1,12 @@
 package meta
 
 import (
+	"context"
+	"errors"
+
 	"github.com/WuKongIM/WuKongIM/internal/zzsym"
+	"github.com/WuKongIM/WuKongIM/pkg/db/internal/dberrors"
+	"github.com/WuKongIM/WuKongIM/pkg/db/internal/engine"
 )
 
 // ---------------------------------------------------------------------------
@@ -244,10 +249,24 @@ func c15WitnessNoConflict(stored, got ChannelRuntimeMeta, res MonotonicResult) {
 	}
 }
 
+// c15WitnessOutcome: the three outcomes (res is concrete on every path: no branching).
+func c15WitnessOutcome(res MonotonicResult) {
+	switch res {
+	case MonotonicApplied:
+		zzsym.Reach("applied")
+	case MonotonicIgnoredStale:
+		zzsym.Reach("stale")
+	case MonotonicConflict:
+		zzsym.Reach("conflict")
+	}
+}
+
 // Harness_C15_Scalars: every integer field of both rows fully symbolic, symbolic fence tokens,
-// symbolic (shared) channel type; the stored row is canonical; lists empty.
+// symbolic (shared) channel type other than 1 (person channels: see Harness_C15_Person);
+// the stored row is canonical; lists empty.
 func Harness_C15_Scalars() {
 	ct := zzsym.I64("channelType")
+	zzsym.Assume(ct != 1)
 	existing := c15Row("existing", ct)
 	cand := c15Row("candidate", ct)
 	zzsym.Assume(c15Canonical(existing))
@@ -255,12 +274,26 @@ func Harness_C15_Scalars() {
 	zzsym.Assert(c15SameRow(stored, existing), "C15: normalize changed a canonical row")
 	got, res := resolveMonotonicChannelRuntimeMeta(existing, true, cand)
 	c15CheckStep(stored, cand, got, res)
-	c15WitnessAll(stored, cand, got, res)
+	c15WitnessOutcome(res)
 }
 
-// Harness_C15_Legacy: the row handed in as "existing" is NOT canonical (route generation 0,
-// as a row written before the column existed; person channel without directory generation).
-// All obligations are relative to normalize(existing), which is what the function documents.
+// Harness_C15_Person (thorough): as Scalars for channel type 1, where canonicalisation also
+// defaults the directory generation.
+func Harness_C15_Person() {
+	existing := c15Row("existing", 1)
+	cand := c15Row("candidate", 1)
+	zzsym.Assume(c15Canonical(existing))
+	stored := normalizeChannelRuntimeMeta(existing)
+	got, res := resolveMonotonicChannelRuntimeMeta(existing, true, cand)
+	c15CheckStep(stored, cand, got, res)
+	zzsym.Assert(got.DirectoryGeneration >= stored.DirectoryGeneration, "C15: directory generation decreased")
+	c15WitnessOutcome(res)
+}
+
+// Harness_C15_Legacy (thorough): the row handed in as "existing" is NOT canonical (route
+// generation 0, as a row written before the column existed; person channel without directory
+// generation). All obligations are relative to normalize(existing), which is what the function
+// documents.
 func Harness_C15_Legacy() {
 	ct := zzsym.I64("channelType")
 	existing := c15Row("existing", ct)
@@ -269,7 +302,7 @@ func Harness_C15_Legacy() {
 	stored := normalizeChannelRuntimeMeta(existing)
 	got, res := resolveMonotonicChannelRuntimeMeta(existing, true, cand)
 	c15CheckStep(stored, cand, got, res)
-	c15WitnessAll(stored, cand, got, res)
+	c15WitnessOutcome(res)
 }
 
 // Harness_C15_FenceTokens: fence tokens among {"", "a", "b"} on both sides; everything but the
@@ -354,4 +387,244 @@ func Harness_C15_Create() {
 		"C15: canonicalisation changed an authority field of the created row")
 	zzsym.Assert(cand.RouteGeneration == 0 || got.RouteGeneration == cand.RouteGeneration, "C15: canonicalisation changed an explicit route generation")
 	zzsym.Observe("c15.create", uint64(res), got.ChannelEpoch, got.LeaderEpoch, got.RouteGeneration, uint64(len(got.Replicas)), uint64(len(got.ISR)))
+}
+
+// ---------------------------------------------------------------------------
+// Batch-staged operations. The real Batch / WriteBatch methods stage their real op closure; the
+// harness runs it the way Batch.Commit's Build callback does, on a commit state whose
+// runtime-meta overlay already holds the symbolic stored row (so no DB read happens), with a
+// detached engine batch (writes are accepted and dropped). What the op "wrote" is read back
+// from the overlay the op itself maintains for later ops of the same commit.
+// ---------------------------------------------------------------------------
+
+const c15HashSlot HashSlot = 7
+
+type c15Env struct {
+	wb    *WriteBatch
+	state *batchCommitState
+	key   string
+}
+
+func c15NewEnv() *c15Env {
+	db := &MetaDB{}
+	return &c15Env{
+		wb: &WriteBatch{db: &DB{meta: db}, batch: &Batch{db: db}},
+		state: &batchCommitState{
+			db:               db,
+			tableRows:        make(map[string]tableRowOverlay),
+			tableCreates:     make(map[string]struct{}),
+			runtimeMeta:      make(map[string]runtimeMetaOverlay),
+			migrationTasks:   make(map[string]migrationTaskOverlay),
+			subscriberRows:   make(map[string]bool),
+			channelPublishes: make(map[string]Channel),
+			channelDeletes:   make(map[string]struct{}),
+		},
+		key: string(encodeChannelRuntimeMetaRowKey(c15HashSlot, "c", c15BatchChannelType, channelRuntimeMetaPrimaryFamilyID)),
+	}
+}
+
+const c15BatchChannelType int64 = 2
+
+func (env *c15Env) seed(row ChannelRuntimeMeta, exists bool) {
+	env.state.runtimeMeta[env.key] = runtimeMetaOverlay{meta: row, exists: exists}
+}
+
+func (env *c15Env) stored() (ChannelRuntimeMeta, bool) {
+	o := env.state.runtimeMeta[env.key]
+	return o.meta, o.exists
+}
+
+func (env *c15Env) apply() error {
+	zzsym.Assert(len(env.wb.batch.ops) == 1, "C15: expected exactly one staged operation")
+	return env.wb.batch.ops[0].apply(context.Background(), env.state, engine.ZZC15DetachedBatch())
+}
+
+// c15ValidRow: a row accepted by validateChannelRuntimeMeta with one replica (node id symbolic,
+// non-zero), which is also the only possible ISR member and leader; fence either absent or
+// well-formed. Epochs, route generation, lease, retention, status, features fully symbolic.
+func c15ValidRow(tag string) ChannelRuntimeMeta {
+	m := c15Row(tag, c15BatchChannelType)
+	node := zzsym.U64(tag + ".node")
+	m.Replicas = []uint64{node}
+	m.MinISR = 1
+	if zzsym.Bool(tag + ".hasLeader") {
+		m.ISR = []uint64{node}
+		m.Leader = node
+	} else {
+		m.Leader = 0
+	}
+	if zzsym.Bool(tag + ".fenced") {
+		m.WriteFenceToken = "a"
+	} else {
+		m.WriteFenceToken = ""
+		m.WriteFenceReason = 0
+		m.WriteFenceUntilMS = 0
+	}
+	return m
+}
+
+// Harness_C15_BatchUpsert: Batch.UpsertChannelRuntimeMeta end to end on a stored row. The candidate
+// is the stored row with symbolic epochs, route generation, lease, status and an optionally
+// switched leader; retention and fence are equal on both sides (their merge is covered by Scalars).
+func Harness_C15_BatchUpsert() {
+	env := c15NewEnv()
+	existing := c15Row("existing", c15BatchChannelType)
+	node := zzsym.U64("existing.node")
+	existing.Replicas = []uint64{node}
+	existing.ISR = []uint64{node}
+	existing.MinISR = 1
+	existing.WriteFenceToken, existing.WriteFenceReason, existing.WriteFenceUntilMS = "", 0, 0
+	if zzsym.Bool("existing.hasLeader") {
+		existing.Leader = node
+	} else {
+		existing.Leader = 0
+	}
+	zzsym.Assume(c15Canonical(existing) && validateChannelRuntimeMeta(existing) == nil)
+	cand := existing
+	cand.ChannelEpoch = zzsym.U64("candidate.channelEpoch")
+	cand.LeaderEpoch = zzsym.U64("candidate.leaderEpoch")
+	cand.RouteGeneration = zzsym.U64("candidate.routeGeneration")
+	cand.LeaseUntilMS = zzsym.I64("candidate.leaseUntil")
+	cand.Status = zzsym.U8("candidate.status")
+	if zzsym.Bool("candidate.hasLeader") {
+		cand.Leader = node
+	} else {
+		cand.Leader = 0
+	}
+	zzsym.Assume(validateChannelRuntimeMeta(cand) == nil)
+	env.seed(existing, true)
+	err := env.wb.UpsertChannelRuntimeMeta(uint16(c15HashSlot), cand)
+	zzsym.Assert(err == nil, "C15: staging a valid upsert failed")
+	err = env.apply()
+	got, ok := env.stored()
+	zzsym.Assert(ok, "C15: upsert removed the row")
+	stored := normalizeChannelRuntimeMeta(existing)
+	if err != nil {
+		zzsym.Reach("conflict")
+		zzsym.Assert(errors.Is(err, dberrors.ErrConflict), "C15: upsert op failed with something else than a conflict")
+		zzsym.Assert(c15SameRow(got, stored), "C15: conflicting upsert changed the stored row")
+		c15CheckStep(stored, cand, got, MonotonicConflict)
+		return
+	}
+	if c15SameRow(got, stored) {
+		// stale, or applied without any change: either way nothing moved
+		zzsym.Reach("unchanged")
+		return
+	}
+	zzsym.Reach("applied")
+	c15CheckStep(stored, cand, got, MonotonicApplied)
+}
+
+// Harness_C15_BatchCreate: Batch.CreateChannelRuntimeMeta never replaces an existing row.
+func Harness_C15_BatchCreate() {
+	env := c15NewEnv()
+	existing := c15ValidRow("existing")
+	zzsym.Assume(c15Canonical(existing))
+	cand := c15ValidRow("candidate")
+	zzsym.Assume(validateChannelRuntimeMeta(cand) == nil)
+	exists := zzsym.Bool("exists")
+	env.seed(existing, exists)
+	res, err := env.wb.CreateChannelRuntimeMeta(uint16(c15HashSlot), cand)
+	zzsym.Assert(err == nil && res != nil, "C15: staging a valid create failed")
+	zzsym.Assert(!res.Created, "C15: Created set before commit")
+	zzsym.Assert(env.apply() == nil, "C15: create op failed")
+	got, ok := env.stored()
+	zzsym.Assert(ok, "C15: create removed the row")
+	if exists {
+		zzsym.Reach("already-present")
+		zzsym.Assert(!res.Created, "C15: create reported Created although the row existed")
+		zzsym.Assert(c15SameRow(got, existing), "C15: create-if-absent replaced an existing row")
+	} else {
+		zzsym.Reach("created")
+		zzsym.Assert(res.Created, "C15: create did not report Created")
+		zzsym.Assert(c15SameRow(got, normalizeChannelRuntimeMeta(cand)) && c15Canonical(got), "C15: created row is not the canonical candidate")
+	}
+	zzsym.Observe("c15.batchcreate", zzsym.B2U(res.Created), got.ChannelEpoch, got.LeaderEpoch, got.RouteGeneration)
+}
+
+// Harness_C15_BatchRetention: WriteBatch.AdvanceChannelRetentionThroughSeq on a stored row.
+func Harness_C15_BatchRetention() {
+	env := c15NewEnv()
+	existing := c15ValidRow("existing")
+	zzsym.Assume(c15Canonical(existing))
+	env.seed(existing, true)
+	req := ChannelRetentionAdvance{
+		ChannelID:            "c",
+		ChannelType:          c15BatchChannelType,
+		ExpectedChannelEpoch: zzsym.U64("req.channelEpoch"),
+		ExpectedLeaderEpoch:  zzsym.U64("req.leaderEpoch"),
+		ExpectedLeader:       zzsym.U64("req.leader"),
+		ExpectedLeaseUntilMS: zzsym.I64("req.leaseUntil"),
+		RetentionThroughSeq:  zzsym.U64("req.retentionSeq"),
+		RetentionUpdatedAtMS: zzsym.I64("req.retentionAt"),
+	}
+	zzsym.Assert(env.wb.AdvanceChannelRetentionThroughSeq(uint16(c15HashSlot), req) == nil, "C15: staging retention advance failed")
+	err := env.apply()
+	got, ok := env.stored()
+	zzsym.Assert(ok, "C15: retention advance removed the row")
+	guardOK := existing.ChannelEpoch == req.ExpectedChannelEpoch && existing.LeaderEpoch == req.ExpectedLeaderEpoch &&
+		existing.Leader == req.ExpectedLeader && existing.LeaseUntilMS == req.ExpectedLeaseUntilMS
+	// mismatching guard => conflict, nothing written
+	zzsym.Assert(guardOK || (errors.Is(err, dberrors.ErrConflict) && c15SameRow(got, existing)), "C15: retention advance with a mismatching guard did not conflict / wrote")
+	zzsym.Assert(!guardOK || err == nil, "C15: retention advance with a matching guard failed")
+	// smaller or equal boundary => nothing written
+	zzsym.Assert(req.RetentionThroughSeq > existing.RetentionThroughSeq || c15SameRow(got, existing), "C15: retention advance to a smaller or equal boundary wrote")
+	// never regresses
+	zzsym.Assert(got.RetentionThroughSeq >= existing.RetentionThroughSeq, "C15: retention advance decreased the boundary")
+	zzsym.Assert(got.RouteGeneration >= existing.RouteGeneration, "C15: retention advance decreased the route generation")
+	advanced := guardOK && req.RetentionThroughSeq > existing.RetentionThroughSeq
+	// otherwise exactly the two retention fields and the generation change
+	want := existing
+	want.RetentionThroughSeq = req.RetentionThroughSeq
+	want.RetentionUpdatedAtMS = req.RetentionUpdatedAtMS
+	want.RouteGeneration = got.RouteGeneration
+	zzsym.Assert(!advanced || c15SameRow(got, want), "C15: retention advance changed something besides retention and route generation")
+	zzsym.Assert(!advanced || existing.RouteGeneration == ^uint64(0) || got.RouteGeneration > existing.RouteGeneration,
+		"C15: retention advanced without a higher route generation")
+	zzsym.Observe("c15.batchretention", zzsym.B2U(err == nil), got.RetentionThroughSeq, uint64(got.RetentionUpdatedAtMS), got.RouteGeneration)
+	if !guardOK {
+		zzsym.Reach("guard-mismatch")
+	} else if advanced {
+		zzsym.Reach("advanced")
+	} else {
+		zzsym.Reach("not-ahead")
+	}
+}
+
+// Harness_C15_BatchRetentionMissing: a retention advance on an absent row reports not-found.
+func Harness_C15_BatchRetentionMissing() {
+	env := c15NewEnv()
+	env.seed(ChannelRuntimeMeta{}, false)
+	req := ChannelRetentionAdvance{ChannelID: "c", ChannelType: c15BatchChannelType, RetentionThroughSeq: zzsym.U64("req.retentionSeq")}
+	zzsym.Assert(env.wb.AdvanceChannelRetentionThroughSeq(uint16(c15HashSlot), req) == nil, "C15: staging retention advance failed")
+	err := env.apply()
+	zzsym.Reach("missing")
+	zzsym.Assert(errors.Is(err, dberrors.ErrNotFound), "C15: retention advance on an absent row did not report not-found")
+	_, ok := env.stored()
+	zzsym.Assert(!ok, "C15: retention advance created a row")
+}
+
+// Harness_C15_MigrationBump: the tail of WriteBatch.stageChannelMigrationTaskAndMeta. A migration
+// mutator derives nextMeta from the stored meta (so it carries the stored route generation) and
+// changes arbitrary fields; the tail is normalize + bumpRuntimeRoute(meta, nextMeta, true).
+func Harness_C15_MigrationBump() {
+	ct := zzsym.I64("channelType")
+	meta := c15Row("meta", ct)
+	zzsym.Assume(c15Canonical(meta))
+	next := c15Row("next", ct)
+	next.RouteGeneration = meta.RouteGeneration
+	next = normalizeChannelRuntimeMeta(next)
+	got := bumpRuntimeRoute(meta, next, true)
+	zzsym.Reach("bumped")
+	want := next
+	want.RouteGeneration = got.RouteGeneration
+	zzsym.Assert(c15SameRow(got, want), "C15: migration bump changed something besides the route generation")
+	zzsym.Assert(got.RouteGeneration >= meta.RouteGeneration, "C15: migration bump decreased the route generation")
+	saturated := meta.RouteGeneration == ^uint64(0)
+	codeChange := runtimeRouteChanged(meta, got)
+	stmtChange := c15StatementChange(meta, got) || meta.ChannelEpoch != got.ChannelEpoch || meta.LeaderEpoch != got.LeaderEpoch
+	zzsym.Assert(saturated || !codeChange || got.RouteGeneration > meta.RouteGeneration, "C15: migration changed the route (runtimeRouteChanged) without a higher route generation")
+	zzsym.Assert(saturated || !stmtChange || got.RouteGeneration > meta.RouteGeneration, "C15: migration changed epochs/leader/status/lease/retention/fence without a higher route generation")
+	zzsym.Assert(codeChange || got.RouteGeneration == meta.RouteGeneration, "C15: migration bumped the route generation without a route change")
+	zzsym.Observe("c15.migrationbump", got.RouteGeneration, zzsym.B2U(codeChange), zzsym.B2U(stmtChange))
 }
